@@ -18,6 +18,8 @@ type Ctx struct {
 	tier  string
 	n     int
 	stats map[string]int
+	queue []string // case lines waiting for execution (isolated families)
+	iso   bool     // run cases in worker subprocesses (panic/spin/oom isolation)
 }
 
 func (c *Ctx) thorough() bool { return c.tier == "thorough" }
@@ -51,7 +53,12 @@ func main() {
 	seed := flag.Int64("seed", 1, "PRNG seed")
 	out := flag.String("out", "", "trace file")
 	replay := flag.String("replay", "", "re-run the cases of a replay/corpus file instead of generating")
+	worker := flag.Bool("worker", false, "internal: execute case lines from stdin, one result line each")
 	flag.Parse()
+	if *worker {
+		workerMain()
+		return
+	}
 	f, ok := families[*fam]
 	if !ok {
 		var names []string
@@ -67,11 +74,14 @@ func main() {
 		fmt.Fprintln(os.Stderr, err)
 		os.Exit(2)
 	}
-	ctx := &Ctx{w: bufio.NewWriterSize(of, 1<<20), rng: rand.New(rand.NewSource(*seed)), tier: *tier, stats: map[string]int{}}
+	ctx := &Ctx{w: bufio.NewWriterSize(of, 1<<20), rng: rand.New(rand.NewSource(*seed)), tier: *tier, stats: map[string]int{}, iso: isolated[*fam]}
 	if *replay != "" {
 		replayFile(ctx, *fam, *replay)
 	} else {
 		f(ctx)
+	}
+	if len(ctx.queue) > 0 {
+		runPool(ctx)
 	}
 	ctx.w.Flush()
 	of.Close()
@@ -107,22 +117,38 @@ func replayFile(c *Ctx, fam, path string) {
 		if i := strings.Index(line, " => "); i >= 0 {
 			line = line[:i]
 		}
-		toks := strings.Fields(line)
-		r, ok := runners[toks[0]]
-		if !ok {
-			c.emit(line, "norunner")
+		if c.iso {
+			c.queue = append(c.queue, line)
 			continue
 		}
-		c.emit(line, guard(func() string { return r(toks[1:]) }))
+		c.emit(line, execLine(line))
 	}
 }
 
-// run executes a case through its runner and emits it.
+// run executes a case through its runner and emits it (queued when the family is isolated).
 func (c *Ctx) run(op string, args ...interface{}) {
 	var toks []string
 	for _, a := range args {
 		toks = append(toks, fmt.Sprint(a))
 	}
-	r := runners[op]
-	c.emit(op+" "+strings.Join(toks, " "), guard(func() string { return r(toks) }))
+	line := op + " " + strings.Join(toks, " ")
+	if c.iso {
+		c.queue = append(c.queue, line)
+		return
+	}
+	c.emit(line, execLine(line))
+}
+
+// execLine runs one case line in this process.
+func execLine(line string) string {
+	toks := strings.Fields(line)
+	r, ok := runners[toks[0]]
+	if !ok {
+		return "norunner"
+	}
+	out := guard(func() string { return r(toks[1:]) })
+	if out == "" {
+		out = "-"
+	}
+	return strings.ReplaceAll(out, "\n", " ")
 }
